@@ -1724,6 +1724,11 @@ func searchResultTestRule(c *Ctx, r *Result, rule string, floor int) {
 					continue // a test of the position itself (the separator is the first character)
 				}
 				good := (kk == 0 && (op == token.GEQ || op == token.LSS)) || (kk == -1 && (op == token.EQL || op == token.NEQ || op == token.GTR || op == token.LEQ))
+				if !good && c.introducedAfterReview(fn) {
+					// `> 0` can be meant (an empty prefix treated like "not found"); in reviewed code no such test exists, in new code it is not decided
+					r.Undec(rule, fmt.Sprintf("%s#search-result-test-%d", c.Name(fn), k), c.InstrPos(cmp), fmt.Sprintf("the result of %s is compared with %s %d in a function introduced after the review", f.Name(), op.String(), kk))
+					continue
+				}
 				r.Check(good, rule, fmt.Sprintf("%s#search-result-test-%d", c.Name(fn), k), c.InstrPos(cmp), fmt.Sprintf("the result of %s is compared with %s %d", f.Name(), op.String(), kk))
 			}
 		})
@@ -2888,4 +2893,22 @@ func init() {
 			r.Shortfall(c, "C12.17", "C12.17: no construction of a globalHeapCollectionBuilder with size, usedSpace and freeSpace found")
 		}
 	})
+}
+
+// introducedAfterReview: fn (or the function it is nested in) is not in the inventory of the reviewed tree.
+func (c *Ctx) introducedAfterReview(fn *ssa.Function) bool {
+	root := fn
+	for root.Parent() != nil {
+		root = root.Parent()
+	}
+	if root.Origin() != nil {
+		return false
+	}
+	name := c.Name(root)
+	for _, n := range c.postReviewFunctions() {
+		if n == name {
+			return true
+		}
+	}
+	return false
 }
